@@ -14,11 +14,11 @@ from . import frames as F
 NUM_COLS = ["x", "z", "w"]
 STR_COLS = ["f", "g", "h"]
 LEVELS = {
-    "f": ["Fa", "Fb", "Fc", "Fd", "Fe"],
-    "g": ["Ga", "Gb", "Gc", "Gd", "Ge"],
-    "h": ["Ha", "Hb", "Hc", "Hd"],
-    "c": ["Cz", "Cm", "Ca", "Cq"],  # category order differs from sorted order
-    "o": ["Olow", "Omid", "Ohigh", "Otop"],  # ordered
+    "f": ["Fa", "Fb", "Fc", "Fd", "Fe", "Ff", "Fg", "Fh", "Fi"],
+    "g": ["Ga", "Gb", "Gc", "Gd", "Ge", "Gf", "Gg", "Gh", "Gi", "Gj", "Gk", "Gl"],
+    "h": ["Ha", "Hb", "Hc", "Hd", "He", "Hf"],
+    "c": ["Cz", "Cm", "Ca", "Cq", "Cb", "Cy"],  # category order differs from sorted order
+    "o": ["Olow", "Omid", "Ohigh", "Otop", "Oultra"],  # ordered
     "y2": ["Ya", "Yb", "Yc"],
 }
 UNSEEN = {"f": "Fzz", "g": "Gzz", "h": "Hzz", "c": "Czz", "o": "Ozz", "k": 97}
@@ -100,10 +100,10 @@ class Gen:
             "families": sorted(enabled),
             "n_clients": r.choice([1, 1, 2, 3]),
             "n_train": r.choice([1, 2, 2, 3]),
-            "rows": r.choice([(4, 8), (8, 25), (8, 25), (26, 60)]),
-            "nlev": r.choice([2, 3, 3, 4]),
+            "rows": r.choice([(4, 8), (8, 25), (8, 25), (26, 60), (8, 25), (26, 60), (90, 260)]),
+            "nlev": r.choice([2, 3, 3, 4, 3, 4, 7, 11]),
             "n_ops": r.randint(5, 40) if self.tier == "thorough" else r.randint(5, 28),
-            "max_items": r.choice([1, 2, 3, 4]),
+            "max_items": r.choice([1, 2, 3, 4, 2, 3, 6]),
             "with_faults": r.random() < (0.4 if self.prop == "C07" else 0.3),
             "p_inject": r.choice([0.1, 0.2, 0.35]),
             "nan_train": r.random() < 0.25,
@@ -172,6 +172,8 @@ class Gen:
         cols.append(["t", "int", trials, None])
         cols.append(["s", "int", [r.randint(0, t) for t in trials], None])
         cols.append(["y2", "str", levels_column(LEVELS["y2"][: nlev["y2"]]), None])
+        cols.append(["m", "int", [r.randint(-3, 40) for _ in range(n)], None])  # integer-valued numeric predictor
+        cols.append(["my col", "float", [round(5 + 2 * r.gauss(0, 1), 3) for _ in range(n)], None])  # needs backquotes
         cols.append(["u1", "float", [round(r.gauss(0, 1), 3) for _ in range(n)], None])
         cols.append(["u2", "str", [r.choice(["p", "q"]) for _ in range(n)], None])
         if cfg["nan_train"]:
@@ -216,6 +218,11 @@ class Gen:
             opts.append(("dotted", 2))
         kind = r.choices([o[0] for o in opts], [o[1] for o in opts])[0]
         if kind == "plain":
+            if r.random() < 0.2:
+                t, used = r.choice([("m", ["m"]), ("I(m > 3)", ["m"]), ("I(x > z)", ["x", "z"]), ("I(-x)", ["x"]),
+                                    ("I(m ** 2)", ["m"]), ("`my col`", ["my col"]), ("center(`my col`)", ["my col"]),
+                                    ("scale(`my col`):m", ["my col", "m"])])
+                return Item(t, used, fams=["plainint"])
             return Item(v, [v])
         if kind == "dotted":
             return Item(r.choice([f"tools.f({v})", f"tools.sub.g({v})", f"center(tools.f({v}))"]), [v],
@@ -230,7 +237,9 @@ class Gen:
         if kind == "bs":
             degree = r.choice([0, 1, 2, 3, 3])
             df = r.randint(max(3, degree + 1), 8)
-            form = r.choice(["df", "df_degree", "pos", "intercept"])
+            form = r.choice(["df", "df_degree", "pos", "intercept", "bounds"])
+            if form == "bounds":
+                return Item(f"bs({v}, df={max(df, 4)}, lower_bound=-2000, upper_bound=2000.5)", [v], fams=["bs"])
             if form == "df":
                 degree = 3
                 df = max(df, 3)
